@@ -34,8 +34,14 @@ RULE = (
     "matrix rebuilt from unique_mappings; pix_lengths vs distinct pixels; neighbour lists vs 4-connectivity / simplex "
     "edges, symmetry, padding. delaunay-special-points: 1..5 image pixels with sub 1..2 whose source positions are "
     "placed exactly on vertices, on simplex edges (fractions 1/2, 1/4, 1/3, arbitrary), at interior barycentric "
-    "combinations and outside the hull, at the same magnitude classes (same oracle; weights are continuous across "
-    "interior edges so either adjacent simplex is accepted; on the hull boundary either branch is accepted). "
+    "combinations, outside the hull, and a resolvable distance d x (edge length), d in {1e-12, 1e-10, 1e-8, 1e-6, 1e-3}, "
+    "just OUTSIDE / just INSIDE hull edges (away from the edge midpoint) and hull vertices (outside: nearest vertex "
+    "alone; inside: barycentric weights of the adjacent simplex), at the same magnitude classes (same oracle; weights "
+    "are continuous across interior edges so either adjacent simplex is accepted; only points within float resolution "
+    "of the hull may take either branch). rect-special-points: 3..7 x 3..7 mesh over a box whose corners are the first "
+    "two source points; further points d cells (same d) on either side of interior row / column boundaries and cell "
+    "corners, d cells inside the sides of the bounding box (one buffer from the outer mesh edge), or interior; default "
+    "or scaled buffer; same magnitude classes; same rectangular oracle. "
     "rect-neighbors: exhaustive mesh shapes 3..10 x 3..10 (quick) / 3..16 (thorough). Non-trivial = per-pixel sub-size "
     "not constant and at least one image pixel maps to >= 2 source pixels; distinct = SHA-1 of the canonical case."
 )
@@ -51,14 +57,17 @@ ASSUMPTIONS = [
     "the worst simplex containing the point to rounding (the forward error of area-ratio weights evaluated in double "
     "from absolute coordinates; 1e-9 for well-shaped triangles near the origin, looser for slivers / far-from-origin "
     "grids; a dense-matrix row takes the largest tolerance of its sub-pixels); state / call-order comparisons exact",
-    "tie bands (excluded, counted; relative to the scale): rectangular sub-pixels within 1e-11*(max|coordinate| + "
-    "buffer) of a cell boundary (still subject to the containment check); Delaunay sub-pixels with a hull-edge "
-    "barycentric coordinate within 1e-9 + 64*eps/quality of 0 (hull boundary: excluded from the exact comparison but "
-    "still required to equal one of the two branches), outside-hull sub-pixels whose two nearest vertices differ by "
+    "tie bands (excluded, counted; float resolution only, relative to the scale): rectangular sub-pixels within "
+    "64*eps*(max|coordinate| + buffer) of a cell boundary (still subject to the containment check); Delaunay "
+    "sub-pixels with a hull-edge barycentric coordinate within 256*eps*(1 + 1/quality + max|coordinate|/smallest "
+    "height of the simplex) of 0 (resolution of the positions and of the 2x2 solve; scipy's own default point-location "
+    "tolerance of 100 eps lies inside it; excluded from the exact comparison but still required to equal one of the "
+    "two branches), outside-hull sub-pixels whose two nearest vertices differ by "
     "< 1e-9 relative squared distance, sub-pixels in a triangle of shape quality 2*area/longest_edge^2 < 1e-8 "
     "(numerically degenerate simplex)",
     "a query that raises is recorded (label query-raised:...) but not judged here: its own contract belongs to other "
     "properties; only its side effects on the three outputs are checked",
+    "the rectangular reference applies overlay_grid's documented buffer rule max(buffer, 64*eps*max|coordinate|)",
     "the rectangular matrix is not compared across scales with the default buffer because overlay_grid's buffer "
     "(1e-8) is an absolute length; with the 'scaled' buffer class the reference at each scale is the oracle",
     "Voronoi natural-neighbour mappers are out of scope (external C library absent)",
@@ -536,19 +545,25 @@ def body_rect(case, ctx):
     if prep is None:
         return
     mapper, b, sub, per_pixel, bmat, owner, src = prep
+    _rect_core(ctx, mapper, b["mesh"], src, shape, b["buffer"], sub, per_pixel, bmat, owner)
+
+
+def _rect_core(ctx, mapper, mesh, src, shape, buffer, sub, per_pixel, bmat, owner):
+    ny, nx = shape
+    pixels = ny * nx
     ctx.label("mesh:square" if ny == nx else "mesh:nonsquare")
-    r = ref.rect_reference(src, shape, buffer=b["buffer"])
-    # tie band relative to the magnitude of the coordinates (rounding of the cell arithmetic is ~ eps * |coordinate|)
-    tie_abs = 1e-11 * (float(np.abs(src).max()) + b["buffer"])
+    r = ref.rect_reference(src, shape, buffer=buffer)
+    # tie band = float resolution of the cell arithmetic: a few eps of the largest |coordinate| (the implementation
+    # evaluates -y/ps + origin/ps + (n-1)/2 + 0.5, the reference (y_max - y)/ps: <= ~8 eps max|coordinate| together)
+    tie_abs = 64.0 * ref.EPS * (float(np.abs(src).max()) + r["buffer"])
     sub_ok = r["bdist"] > tie_abs
     if (~sub_ok).any():
         ctx.label("tie:cell-boundary")
-    ctx.label("mesh:extent-dominated-by-buffer" if min(r["dy"] * ny, r["dx"] * nx) <= 4.0 * b["buffer"] else "mesh:regular-extent")
+    ctx.label("mesh:extent-dominated-by-buffer" if min(r["dy"] * ny, r["dx"] * nx) <= 4.0 * r["buffer"] else "mesh:regular-extent")
     nsub = len(owner)
     s_ref = np.zeros((nsub, pixels))
     s_ref[np.arange(nsub), np.clip(r["pix"], 0, pixels - 1)] = 1.0
 
-    mesh = b["mesh"]
     ctx.check(tuple(mesh.shape_native) == (ny, nx) and int(mapper.params) == pixels, "rect/mesh/shape",
               "mesh shape_native %s params %s" % (mesh.shape_native, mapper.params))
     # published pixel centres of the overlaid mesh = centres of the cells of the bounding box +- buffer
@@ -562,19 +577,24 @@ def body_rect(case, ctx):
         ctx.check(bool(np.all(sizes == 1)), "rect/pix_sub_weights/sizes", "a sub-pixel maps to %s cells" % sorted(set(sizes.tolist())))
         got = mappings[:, 0].astype(int)
         # own cell arithmetic (outside the tie band)
+        sq = "square" if ny == nx else "nonsquare"
         cls_far = sub_ok & r["far_edge"]
         cls_in = sub_ok & ~r["far_edge"]
+        near = sub_ok & (r["bdist"] <= 1e-5 * min(r["dy"], r["dx"]))
+        if near.any():
+            ctx.label("rect:decidable-sub-pixel-within-1e-5-cell-of-a-boundary")
         if cls_far.any():
             ctx.label("rect:far-edge-sub-pixels")
-            ctx.equal(got[cls_far], r["pix"][cls_far], "rect/cell-index/far-edge/%s" % ("square" if ny == nx else "nonsquare"),
+            ctx.equal(got[cls_far], r["pix"][cls_far], "rect/cell-index/far-edge/%s" % sq,
                       "cell index of sub-pixels in the last row/column of cells")
         if cls_in.any():
-            ctx.equal(got[cls_in], r["pix"][cls_in], "rect/cell-index/interior/%s" % ("square" if ny == nx else "nonsquare"),
+            ctx.equal(got[cls_in], r["pix"][cls_in], "rect/cell-index/interior/%s" % sq,
                       "cell index of sub-pixels not in the last row/column")
         # containment: the point lies within half a cell of the centre of the cell it is mapped to (all sub-pixels)
+        slack = 4.0 * tie_abs + 1e-9 * max(r["dy"], r["dx"])
         c = np.asarray(mesh, dtype=float)[np.clip(got, 0, pixels - 1)]
-        dy_ok = np.abs(src[:, 0] - c[:, 0]) <= 0.5 * r["dy"] + tie_abs
-        dx_ok = np.abs(src[:, 1] - c[:, 1]) <= 0.5 * r["dx"] + tie_abs
+        dy_ok = np.abs(src[:, 0] - c[:, 0]) <= 0.5 * r["dy"] + slack
+        dx_ok = np.abs(src[:, 1] - c[:, 1]) <= 0.5 * r["dx"] + slack
         ctx.check(bool(np.all(dy_ok & dx_ok)), "rect/containment", "a sub-pixel is not inside the cell it is mapped to (worst offset %.3g, %.3g cells)" % (
             float(np.max(np.abs(src[:, 0] - c[:, 0]) / r["dy"])), float(np.max(np.abs(src[:, 1] - c[:, 1]) / r["dx"]))))
     nb = ctx.impl("rect/neighbors", lambda: mapper.neighbors)
@@ -600,6 +620,10 @@ def _delaunay_core(ctx, mapper, mesh, src, verts, sub, per_pixel, bmat, owner, r
         ctx.label("tie:hull-or-nearest-or-sliver")
     if (inside & sub_ok & (r["simplex_margin"] <= 1e-9)).any():
         ctx.label("inside-hull-sub-pixel-on-simplex-edge-or-vertex")
+    if (sub_ok & ~inside & (np.abs(r["hull_margin"]) <= 1e-5)).any():
+        ctx.label("near-hull:decidable-just-outside")
+    if (sub_ok & inside & (np.abs(r["hull_margin"]) <= 1e-5)).any():
+        ctx.label("near-hull:decidable-just-inside")
     frac_out = float((~inside).mean())
     ctx.label("hull:all-inside" if frac_out == 0 else "hull:all-outside" if frac_out == 1 else "hull:some-outside")
     if not general:
@@ -667,7 +691,27 @@ def body_delaunay(case, ctx):
         _scale_invariance(ctx, out, sub_ok, general, owner, _build(case, "delaunay", 0)["mapper"], k)
 
 
-# ---- Delaunay, source points placed on vertices / edges / centroids ---------------------------
+# ---- Delaunay, source points placed on vertices / edges / centroids / just off the hull ---------
+NEAR_DISTANCES = [1e-12, 1e-10, 1e-8, 1e-6, 1e-3]     # relative to the hull edge length / the cell size
+
+
+def _hull_edges(tri, verts):
+    """(va index, vb index, unit outward normal) of every hull edge (harness side: placement only)."""
+    out = []
+    simp = np.asarray(tri.simplices)
+    nb = np.asarray(tri.neighbors)
+    for t in range(len(simp)):
+        for j in range(3):
+            if nb[t, j] == -1:
+                ia, ib = [int(simp[t, i]) for i in range(3) if i != j]
+                e = verts[ib] - verts[ia]
+                nrm = np.array([-e[1], e[0]])
+                if np.dot(nrm, verts[simp[t, j]] - verts[ia]) > 0:
+                    nrm = -nrm
+                out.append((ia, ib, nrm / np.sqrt((nrm ** 2).sum())))
+    return out
+
+
 @st.composite
 def special_point_cases(draw):
     n = draw(st.integers(1, 5))
@@ -681,8 +725,9 @@ def special_point_cases(draw):
     fr = st.one_of(st.sampled_from([0.5, 0.25, 0.75, 1.0 / 3.0]), st.floats(0.01, 0.99))
     pts = []
     for _ in range(npts):
-        kind = draw(st.sampled_from(["vertex", "edge", "edge", "interior", "outside"]))
-        pts.append([kind, draw(st.integers(0, 200)), draw(st.integers(0, 2)), draw(fr), draw(fr)])
+        kind = draw(st.sampled_from(["vertex", "edge", "edge", "interior", "outside",
+                                     "hull-edge-out", "hull-edge-out", "hull-edge-in", "hull-vertex-out", "hull-vertex-in"]))
+        pts.append([kind, draw(st.integers(0, 200)), draw(st.integers(0, 2)), draw(fr), draw(fr), draw(st.sampled_from(NEAR_DISTANCES))])
     return {"sub": sub, "lattice": [ny, nx], "jitter": jit, "margin": 1.0,
             "box": [draw(gens.reals(-5, 5)), draw(gens.reals(-5, 5)), draw(gens.positives(0.1, 5.0)), draw(gens.positives(0.1, 5.0))],
             "points": pts, "scale_exp": draw(scale_exps())}
@@ -701,8 +746,12 @@ def body_special_points(case, ctx):
     tri = scipy.spatial.Delaunay(verts)     # harness side: only used to place the points
     simp = np.asarray(tri.simplices)
     pts = []
-    for kind, a, b, f1, f2 in case["points"]:
-        ctx.label("point:%s" % kind)
+    hull = _hull_edges(tri, verts)
+    centroid = verts.mean(axis=0)
+    for p in case["points"]:
+        kind, a, b, f1, f2 = p[:5]
+        d = float(p[5]) if len(p) > 5 else 1e-6
+        ctx.label("point:%s" % kind if not kind.startswith("hull-") else "point:%s@%g" % (kind, d))
         if kind == "vertex":
             pts.append(verts[a % len(verts)].copy())
         elif kind == "edge":
@@ -713,11 +762,26 @@ def body_special_points(case, ctx):
             t = simp[a % len(simp)]
             w0 = f1; w1 = f2 * (1.0 - f1); w2 = 1.0 - w0 - w1
             pts.append(w0 * verts[t[0]] + w1 * verts[t[1]] + w2 * verts[t[2]])
+        elif kind in ("hull-edge-out", "hull-edge-in"):
+            # a resolvable distance d * (edge length) outside / inside a hull edge, away from its midpoint (where the
+            # two end vertices would be equidistant) -- outside: nearest vertex alone; inside: barycentric weights
+            ia, ib, nrm = hull[a % len(hull)]
+            f = f1 if abs(f1 - 0.5) > 0.05 else 0.3
+            e = verts[ib] - verts[ia]
+            sign = 1.0 if kind == "hull-edge-out" else -1.0
+            pts.append(verts[ia] + f * e + sign * d * float(np.sqrt((e ** 2).sum())) * nrm)
+        elif kind in ("hull-vertex-out", "hull-vertex-in"):
+            # beyond / before a hull vertex on the ray from the centroid of the vertex set (convexity: beyond = outside)
+            ia, ib, nrm = hull[a % len(hull)]
+            v = verts[ia if b % 2 == 0 else ib]
+            u = (v - centroid) / np.sqrt(((v - centroid) ** 2).sum())
+            length = float(np.sqrt(((verts[ib] - verts[ia]) ** 2).sum()))
+            sign = 1.0 if kind == "hull-vertex-out" else -1.0
+            pts.append(v + sign * d * length * u)
         else:
             ang = 2.0 * np.pi * ((a % 97) / 97.0)
-            c = verts.mean(axis=0)
-            rad = (1.2 + 3.0 * f1) * float(np.sqrt(((verts - c) ** 2).sum(axis=1).max()))
-            pts.append(c + rad * np.array([np.sin(ang), np.cos(ang)]))
+            rad = (1.2 + 3.0 * f1) * float(np.sqrt(((verts - centroid) ** 2).sum(axis=1).max()))
+            pts.append(centroid + rad * np.array([np.sin(ang), np.cos(ang)]))
     k = int(case.get("scale_exp", 0))
     ctx.label(_scale_label(k))
     sc = 2.0 ** k
@@ -735,6 +799,75 @@ def body_special_points(case, ctx):
     out, sub_ok, general = _delaunay_core(ctx, mapper, mesh, np.asarray(pts, dtype=float) * sc, verts * sc, sub, per_pixel, bmat, owner)
     if k != 0:
         _scale_invariance(ctx, out, sub_ok, general, owner, build(1.0)[0], k)
+
+
+# ---- rectangular, source points placed just off cell boundaries and the outer mesh edge --------------
+@st.composite
+def rect_special_cases(draw):
+    n = draw(st.integers(1, 5))
+    sub = draw(st.lists(st.integers(1, 2), min_size=n, max_size=n))
+    npts = sum(v * v for v in sub)
+    if npts < 3:
+        sub = [2] + sub[1:]
+        npts = sum(v * v for v in sub)
+    fr = st.floats(0.02, 0.98)
+    pts = []
+    for _ in range(npts - 2):       # the first two points are the corners of the bounding box
+        kind = draw(st.sampled_from(["row-boundary", "col-boundary", "corner", "outer-edge", "interior"]))
+        pts.append([kind, draw(st.integers(0, 50)), draw(st.integers(0, 50)), draw(fr), draw(fr),
+                    draw(st.sampled_from(NEAR_DISTANCES)), draw(st.sampled_from([-1, 1])), draw(st.sampled_from([-1, 1]))])
+    return {"sub": sub, "shape": [draw(st.integers(3, 7)), draw(st.integers(3, 7))],
+            "box": [draw(gens.reals(-5, 5)), draw(gens.reals(-5, 5)), draw(gens.positives(0.1, 5.0)), draw(gens.positives(0.1, 5.0))],
+            "buffer": draw(st.sampled_from(["default", "default", "scaled"])),
+            "points": pts, "scale_exp": draw(scale_exps())}
+
+
+def body_rect_special(case, ctx):
+    import autoarray as aa
+    sub = np.asarray(case["sub"], dtype=int)
+    n = len(sub)
+    per_pixel = len(set(sub.tolist())) > 1
+    ctx.label("sub:per-pixel" if per_pixel else "sub:uniform-%d" % sub[0])
+    ny, nx = [int(v) for v in case["shape"]]
+    k = int(case.get("scale_exp", 0))
+    ctx.label(_scale_label(k))
+    ctx.label("buffer:%s" % case["buffer"])
+    sc = 2.0 ** k
+    cy, cx, hy, hx = [float(v) * sc for v in case["box"]]      # exact: power of two
+    y0, y1, x0, x1 = cy - hy, cy + hy, cx - hx, cx + hx
+    buf_in = ref.BUFFER * sc if case["buffer"] == "scaled" else ref.BUFFER
+    # placement only (harness side): the cell boundaries of the mesh that will be laid over the box
+    buf = max(buf_in, 64.0 * ref.EPS * max(abs(y0), abs(y1), abs(x0), abs(x1)))
+    dy = (y1 - y0 + 2 * buf) / ny
+    dx = (x1 - x0 + 2 * buf) / nx
+    pts = [[y0, x0], [y1, x1]]
+    for kind, a, b, f1, f2, d, sy, sx in case["points"]:
+        ctx.label("point:%s" % kind if kind == "interior" else "point:%s@%g" % (kind, d))
+        y = y0 + f1 * (y1 - y0)
+        x = x0 + f2 * (x1 - x0)
+        if kind in ("row-boundary", "corner"):
+            y = (y1 + buf) - (1 + a % (ny - 1)) * dy + sy * d * dy
+        if kind in ("col-boundary", "corner"):
+            x = (x0 - buf) + (1 + b % (nx - 1)) * dx + sx * d * dx
+        if kind == "outer-edge":
+            # inside the bounding box, d cells from one of its sides (the mesh edge lies one buffer further out)
+            if a % 2 == 0:
+                y = y0 + d * dy if sy < 0 else y1 - d * dy
+            else:
+                x = x0 + d * dx if sx < 0 else x1 - d * dx
+        pts.append([min(max(y, y0), y1), min(max(x, x0), x1)])
+    src = np.asarray(pts, dtype=float)
+    mask = aa.Mask2D(mask=np.zeros((1, n), dtype=bool), pixel_scales=(sc, sc))
+    osamp = scene.over_sampler_for(mask, [int(v) for v in sub])
+    bmat, owner = ref.binning_matrix(sub)
+    grid = aa.Grid2DIrregular(values=src.copy())
+    if case["buffer"] == "scaled":
+        mesh = aa.Mesh2DRectangular.overlay_grid(grid=grid, shape_native=(ny, nx), buffer=buf_in)
+    else:
+        mesh = aa.Mesh2DRectangular.overlay_grid(grid=grid, shape_native=(ny, nx))
+    mg = aa.MapperGrids(mask=mask, source_plane_data_grid=grid, source_plane_mesh_grid=mesh)
+    mapper = aa.Mapper(mapper_grids=mg, over_sampler=osamp, regularization=None)
+    _rect_core(ctx, mapper, mesh, src, [ny, nx], buf_in, sub, per_pixel, bmat, owner)
 
 
 def cases_rect_neighbors(tier):
@@ -765,6 +898,8 @@ SUBCHECKS = [
     SubCheck("delaunay", body_delaunay, strategy=mapper_cases("delaunay"), examples={"quick": 2000, "thorough": 16000},
              shards={"quick": 8, "thorough": 8}),
     SubCheck("delaunay-special-points", body_special_points, strategy=special_point_cases(),
+             examples={"quick": 600, "thorough": 4000}, shards={"quick": 2, "thorough": 2}),
+    SubCheck("rect-special-points", body_rect_special, strategy=rect_special_cases(),
              examples={"quick": 600, "thorough": 4000}, shards={"quick": 2, "thorough": 2}),
     SubCheck("rect-neighbors", body_rect_neighbors, cases=cases_rect_neighbors, shards={"quick": 1, "thorough": 1}),
 ]
